@@ -19,7 +19,8 @@ EXPLANATION = (
     "preserve the kind of type (fixed-length string, user-defined, built-in) arm by arm; (R8) the "
     "casting emitter converts on every path of its BuiltIn and FixedLengthString arms."
     " (R11) the type the checker attaches to a record-field node is the type the TYPE declares for the element (or the type copied from the node being rewritten), never one made from the suffix the programmer wrote: the generator picks FixLength from it."
-    " (R12) every emitted CopyAToVarPath pops a variable path that the same generator function built on the same emission path.")
+    " (R12) every emitted CopyAToVarPath pops a variable path that the same generator function built on the same emission path."
+    " (R13 = C03.R1) the indices that point to memory blocks stay right when a block is removed.")
 NOT_DECIDED = ["bijectivity of the flat index map (stride arithmetic) and element values (value-level)"]
 
 
